@@ -733,3 +733,199 @@ Proof.
       pose proof (nth_error_lt _ _ _ X1) as Ha. rewrite Lj in Ha. simpl.
       destruct (Nat.eqb_spec a0 (length (jars H))); [lia|reflexivity].
 Qed.
+
+(* ================= Clone, R(), C() ================= *)
+Lemma clone_sls_spec dst src : forall l modes k A oA A' l',
+  (forall i, nth i modes true = true) -> length oA = length A ->
+  (forall i, sl_ok A oA (src, KSl (k + i)) (nth i l None)) ->
+  clone_sls modes A l = (A', l') ->
+  exists e, length (oA ++ e) = length A' /\
+    (forall i, sl_ok A' (oA ++ e) (dst, KSl (k + i)) (nth i l' None)) /\
+    map (sl_read A') l' = map (sl_read A) l /\ frame [] (fun _ : atag => False) A oA A'.
+Proof.
+  induction l as [|s t IH]; intros modes k A oA A' l' Hm HL Hok Hc; cbn [clone_sls] in Hc.
+  - inversion Hc; subst. exists []. rewrite app_nil_r. repeat split; auto. intros i; destruct i; exact I.
+  - assert (M0 : hd true modes = true) by (specialize (Hm 0); destruct modes; auto).
+    rewrite M0 in Hc.
+    destruct (sl_clone A s) as [A1 s1] eqn:E1.
+    destruct (clone_sls (tl modes) A1 t) as [A2 t2] eqn:E2. inversion Hc; subst A' l'; clear Hc.
+    destruct (sl_clone_spec _ oA (dst, KSl (k + 0)) _ _ _ HL E1) as (e1 & L1 & K1 & R1 & F1).
+    assert (Hok1 : forall i, sl_ok A1 (oA ++ e1) (src, KSl (S k + i)) (nth i t None) /\ sl_read A1 (nth i t None) = sl_read A (nth i t None)).
+    { intros i. specialize (Hok (S i)). replace (k + S i) with (S k + i) in Hok by lia.
+      apply (sl_ok_frame _ _ _ e1 _ _ _ Hok (fun x : False => x) F1). }
+    destruct (IH (tl modes) (S k) A1 (oA ++ e1) A2 t2) as (e2 & L2 & K2 & R2 & F2); auto.
+    { intros i. specialize (Hm (S i)). destruct modes; auto. destruct i; auto. }
+    { intros i. apply Hok1. }
+    exists (e1 ++ e2). rewrite app_assoc. split; [exact L2|]. split; [|split].
+    + intros [|i]; cbn [nth].
+      * apply (sl_ok_frame _ _ _ e2 _ _ _ K1 (fun x : False => x) F2).
+      * replace (k + S i) with (S k + i) by lia. apply K2.
+    + cbn [map]. f_equal.
+      * destruct (sl_ok_frame _ _ _ e2 _ _ _ K1 (fun x : False => x) F2) as [_ E]. now rewrite E.
+      * rewrite R2. apply map_nth_ext with (d := None). intros i. apply Hok1.
+    + eapply frame_trans; eauto.
+Qed.
+
+Lemma clone_mps_spec dst : forall l modes k (M : list mapcell) (oM : list mtag) M' l',
+  (forall i, nth i modes true = true) -> length oM = length M ->
+  clone_mps modes M l = (M', l') ->
+  exists e, length (oM ++ e) = length M' /\
+    (forall i, mp_ok (oM ++ e) (dst, k + i) (nth i l' None)) /\
+    (forall src, (forall i, mp_ok oM (src, k + i) (nth i l None)) -> map (mp_read M') l' = map (mp_read M) l) /\
+    frame [] (fun _ : mtag => False) M oM M'.
+Proof.
+  induction l as [|m t IH]; intros modes k M oM M' l' Hm HL Hc; cbn [clone_mps] in Hc.
+  - inversion Hc; subst. exists []. rewrite app_nil_r. repeat split; auto. intros i; destruct i; exact I.
+  - assert (M0 : hd true modes = true) by (specialize (Hm 0); destruct modes; auto).
+    rewrite M0 in Hc.
+    destruct (mp_clone M m) as [M1 m1] eqn:E1.
+    destruct (clone_mps (tl modes) M1 t) as [M2 t2] eqn:E2. inversion Hc; subst M' l'; clear Hc.
+    destruct (mp_clone_spec _ oM (dst, k + 0) _ _ _ HL E1) as (e1 & L1 & K1 & R1 & F1).
+    destruct (IH (tl modes) (S k) M1 (oM ++ e1) M2 t2) as (e2 & L2 & K2 & R2 & F2); auto.
+    { intros i. specialize (Hm (S i)). destruct modes; auto. destruct i; auto. }
+    exists (e1 ++ e2). rewrite app_assoc. split; [exact L2|]. split; [|split].
+    + intros [|i]; cbn [nth].
+      * apply (mp_ok_frame _ _ _ e2 _ _ _ K1 (fun x : False => x) F2).
+      * replace (k + S i) with (S k + i) by lia. apply K2.
+    + intros src Hok. cbn [map]. f_equal.
+      * destruct (mp_ok_frame _ _ _ e2 _ _ _ K1 (fun x : False => x) F2) as [_ E]. now rewrite E.
+      * rewrite (R2 src).
+        -- apply map_nth_ext with (d := None). intros i. specialize (Hok (S i)).
+           apply (mp_ok_frame _ _ _ e1 _ _ _ Hok (fun x : False => x) F1).
+        -- intros i. specialize (Hok (S i)). replace (k + S i) with (S k + i) in Hok by lia.
+           apply (mp_ok_frame _ _ _ e1 _ _ _ Hok (fun x : False => x) F1).
+    + eapply frame_trans; eauto.
+Qed.
+
+Lemma rt_clone_spec grow dst src H ow r H' r' :
+  lens H ow -> rt_ok (arrs H) (recs H) (owA ow) (owR ow) src r -> rt_clone grow H r = (H', r') ->
+  exists eA eR, lens H' (ext ow eA [] eR []) /\ maps H' = maps H /\ jars H' = jars H /\
+    frame [] (fun _ : atag => False) (arrs H) (owA ow) (arrs H') /\
+    frame retry0 (fun _ : oid => False) (recs H) (owR ow) (recs H') /\
+    rt_ok (arrs H') (recs H') (owA ow ++ eA) (owR ow ++ eR) dst r' /\
+    rt_view (arrs H') (recs H') r' = rt_view (arrs H) (recs H) r.
+Proof.
+  intros (La & Lm & Lr & Lj) Ok Hc. unfold rt_clone in Hc. destruct r as [a|].
+  2:{ inversion Hc; subst. exists [], []. unfold lens, ext; simpl. rewrite !app_nil_r.
+      repeat split; auto. }
+  simpl in Ok. destruct Ok as (Ta & Kc & Kh). set (x := nth a (recs H) retry0) in *.
+  destruct (sl_append grow (arrs H) None (sl_read (arrs H) (r_conds x))) as [A1 c1] eqn:E1.
+  destruct (sl_append grow A1 None (sl_read A1 (r_hooks x))) as [A2 h1] eqn:E2.
+  inversion Hc; subst H' r'; clear Hc.
+  destruct (sl_append_spec grow (arrs H) (owA ow) (dst, KConds) None _ _ _ La I E1) as (e1 & L1 & K1 & R1 & F1).
+  destruct (sl_append_spec grow A1 (owA ow ++ e1) (dst, KHooks) None _ _ _ L1 I E2) as (e2 & L2 & K2 & R2 & F2).
+  assert (F1' : frame [] (fun _ : atag => False) (arrs H) (owA ow) A1).
+  { destruct (sl_read (arrs H) (r_conds x)) eqn:Ev.
+    - cbn [sl_append] in E1. inversion E1; subst. apply frame_refl.
+    - cbn [sl_append] in E1. inversion E1; subst. now apply frame_app. }
+  assert (F2' : frame [] (fun _ : atag => False) A1 (owA ow ++ e1) A2).
+  { destruct (sl_read A1 (r_hooks x)) eqn:Ev.
+    - cbn [sl_append] in E2. inversion E2; subst. apply frame_refl.
+    - cbn [sl_append] in E2. inversion E2; subst. now apply frame_app. }
+  destruct (sl_ok_frame _ _ _ e1 _ _ _ Kh (fun x : False => x) F1') as [Kh1 Rh1].
+  destruct (sl_ok_frame _ _ _ e2 _ _ _ K1 (fun x : False => x) F2') as [K1' R1'].
+  exists (e1 ++ e2), [dst]. unfold lens, ext; cbn [owA owM owR owJ arrs maps recs jars with_recs with_arrs].
+  rewrite !app_nil_r, app_assoc.
+  split; [split; [exact L2|split; [exact Lm|split; [rewrite !app_length, Lr; reflexivity|exact Lj]]]|].
+  split; [reflexivity|]. split; [reflexivity|].
+  split; [eapply frame_trans; eauto|]. split; [now apply frame_app|].
+  assert (Ex : nth (length (recs H)) (recs H ++ [{| r_max := r_max x; r_int := r_int x; r_conds := c1; r_hooks := h1 |}]) retry0
+               = {| r_max := r_max x; r_int := r_int x; r_conds := c1; r_hooks := h1 |}) by apply nth_app_new.
+  split.
+  - cbn [rt_ok]. rewrite Ex. cbn [r_conds r_hooks]. split; [|split; auto].
+    rewrite <- Lr. apply nth_error_app_new.
+  - unfold rt_view, rt_read. cbn [arrs recs]. rewrite Ex. cbn [r_max r_int r_conds r_hooks]. fold x.
+    rewrite R1', R1, R2, Rh1. reflexivity.
+Qed.
+
+Lemma bx_clone_spec (J : list (list val)) (oJ : list mtag) t' p J' p' :
+  length oJ = length J -> bx_clone J p = (J', p') ->
+  exists e, length (oJ ++ e) = length J' /\ mp_ok (oJ ++ e) t' p' /\ bx_read J' p' = bx_read J p /\
+    frame [] (fun _ : mtag => False) J oJ J' /\
+    (forall a, p = Some a -> p' = Some (length J) /\ length J' = S (length J)) /\ (p = None -> p' = None).
+Proof.
+  intros L Hc. unfold bx_clone in Hc. destruct p as [a|]; inversion Hc; subst J' p'; clear Hc.
+  - destruct (bx_new_spec J oJ t' (nth a J []) L) as (L1 & T1 & R1 & F1).
+    exists [t']. split; [exact L1|]. split; [exact T1|]. split; [simpl; now rewrite R1|]. split; [exact F1|].
+    split; [intros a0 _; split; [reflexivity|rewrite app_length; simpl; lia] | intros E; discriminate].
+  - exists []. rewrite app_nil_r. split; [exact L|]. split; [exact I|]. split; [reflexivity|].
+    split; [apply frame_refl|]. split; [intros a E; discriminate|reflexivity].
+Qed.
+
+Lemma clone_boxes_spec dst src (J : list (list val)) (oJ : list mtag) o J' jar x :
+  length oJ = length J -> jar_ok oJ src (o_jar o) (o_fact o) -> ext_ok oJ src (o_ext o) ->
+  clone_boxes deep_tbl J o = (J', jar, x) ->
+  exists e, length (oJ ++ e) = length J' /\ frame [] (fun _ : mtag => False) J oJ J' /\
+    jar_ok (oJ ++ e) dst jar (o_fact o) /\ ext_ok (oJ ++ e) dst x /\
+    match jar with None => None | Some a => Some (nth a J' []) end
+      = (if o_fact o then Some [] else match o_jar o with None => None | Some a => Some (nth a J []) end) /\
+    abs_ext J' x = abs_ext J (o_ext o).
+Proof.
+  intros L JO (X1 & X2 & X3) Hc. unfold clone_boxes in Hc.
+  cbn [deep_tbl t_jar t_tls t_dopt t_dumper t_link andb] in Hc. rewrite andb_true_r in Hc.
+  (* the jar *)
+  assert (S3 : exists J3 jar0 e3, (if o_fact o then (J ++ [[]], Some (length J)) else (J, o_jar o)) = (J3, jar0) /\
+             length (oJ ++ e3) = length J3 /\ frame [] (fun _ : mtag => False) J oJ J3 /\
+             jar_ok (oJ ++ e3) dst jar0 (o_fact o) /\
+             match jar0 with None => None | Some a => Some (nth a J3 []) end
+               = (if o_fact o then Some [] else match o_jar o with None => None | Some a => Some (nth a J []) end)).
+  { destruct (o_fact o) eqn:EF.
+    - destruct (bx_new_spec J oJ (dst, 0) [] L) as (L1 & T1 & R1 & F1).
+      exists (J ++ [[]]), (Some (length J)), [(dst, 0)].
+      split; [reflexivity|]. split; [exact L1|]. split; [exact F1|]. split; [simpl; auto|]. now rewrite R1.
+    - exists J, (o_jar o), []. rewrite app_nil_r. destruct (o_jar o) as [a|]; [destruct JO; discriminate|].
+      split; [reflexivity|]. split; [exact L|]. split; [apply frame_refl|]. split; [exact I|reflexivity]. }
+  destruct S3 as (J3 & jar0 & e3 & E3 & L3 & F3 & K3 & R3). rewrite E3 in Hc.
+  destruct (bx_clone J3 (e_tls (o_ext o))) as [J4 tls] eqn:E4.
+  destruct (bx_clone J4 (e_dopt (o_ext o))) as [J5 dopt] eqn:E5.
+  destruct (bx_clone_spec J3 (oJ ++ e3) (dst, 2) _ _ _ L3 E4) as (e4 & L4 & K4 & R4 & F4 & P4 & N4).
+  destruct (bx_clone_spec J4 ((oJ ++ e3) ++ e4) (dst, 1) _ _ _ L4 E5) as (e5 & L5 & K5 & R5 & F5 & P5 & N5).
+  (* the source's pointers keep reading the same through the allocations *)
+  assert (F05 : frame [] (fun _ : mtag => False) J oJ J5).
+  { eapply frame_trans; [eapply frame_trans; [exact F3|exact F4]|]. rewrite <- app_assoc in F5. exact F5. }
+  destruct (bx_ok_frame _ _ _ e3 _ _ _ X3 F3 (fun x : False => x)) as (_ & B33 & _).
+  assert (F04 : frame [] (fun _ : mtag => False) J oJ J4) by exact (frame_trans _ _ _ _ _ _ _ F3 F4).
+  destruct (bx_ok_frame _ _ _ (e3 ++ e4) _ _ _ X1 F04 (fun x : False => x)) as (_ & B14 & _).
+  destruct (bx_ok_frame _ _ _ ((e3 ++ e4) ++ e5) _ _ _ X2 F05 (fun x : False => x)) as (_ & _ & C25).
+  (* the dumper *)
+  set (D := match e_dumper (o_ext o) with
+            | Some b => if opn_eqb (e_dopt (o_ext o)) (Some b) then (J5, dopt) else bx_clone J5 (Some b)
+            | None => (J5, None) end) in *.
+  destruct D as [J6 dumper] eqn:E6. cbv beta iota zeta in Hc. injection Hc as <- <- <-.
+  assert (S6 : exists e6, length ((((oJ ++ e3) ++ e4) ++ e5) ++ e6) = length J6 /\
+             frame [] (fun _ : mtag => False) J5 (((oJ ++ e3) ++ e4) ++ e5) J6 /\
+             mp_ok ((((oJ ++ e3) ++ e4) ++ e5) ++ e6) (dst, 1) dumper /\
+             match dumper with None => DOff | Some b => if opn_eqb dopt (Some b) then DLinked else DOwn (nth b J6 []) end
+               = x_dumper (abs_ext J (o_ext o))).
+  { unfold D in E6. unfold abs_ext; cbn [x_dumper].
+    destruct (e_dumper (o_ext o)) as [b|] eqn:ED.
+    2:{ inversion E6; subst. exists []. rewrite app_nil_r. repeat split; auto. }
+    destruct (opn_eqb (e_dopt (o_ext o)) (Some b)) eqn:EL.
+    - inversion E6; subst J6 dumper. exists []. rewrite app_nil_r. split; [exact L5|]. split; [apply frame_refl|].
+      split; [exact K5|].
+      destruct (e_dopt (o_ext o)) as [a0|] eqn:EDo; [|discriminate].
+      destruct (P5 a0 eq_refl) as [-> _]. now rewrite opn_eqb_refl.
+    - destruct (bx_clone_spec J5 (((oJ ++ e3) ++ e4) ++ e5) (dst, 1) _ _ _ L5 E6) as (e6 & L6 & K6 & R6 & F6 & P6 & N6).
+      exists e6. split; [exact L6|]. split; [exact F6|]. split; [exact K6|].
+      destruct (P6 b eq_refl) as [-> L6']. simpl in R6. inversion R6 as [R6'].
+      assert (NL : opn_eqb dopt (Some (length J5)) = false).
+      { destruct (e_dopt (o_ext o)) as [a0|] eqn:EDo.
+        - destruct (P5 a0 eq_refl) as [-> L5']. simpl. apply Nat.eqb_neq. lia.
+        - rewrite (N5 eq_refl). reflexivity. }
+      rewrite NL, R6', (C25 b eq_refl). reflexivity. }
+  destruct S6 as (e6 & L6 & F6 & K6 & R6).
+  exists (((e3 ++ e4) ++ e5) ++ e6). rewrite !app_assoc. split; [exact L6|].
+  assert (F06 : frame [] (fun _ : mtag => False) J oJ J6).
+  { pose proof F6 as F6'. rewrite <- !app_assoc in F6'. exact (frame_trans _ _ _ _ _ _ _ F05 F6'). }
+  split; [exact F06|].
+  assert (F36 : frame [] (fun _ : mtag => False) J3 (oJ ++ e3) J6).
+  { pose proof (frame_trans _ _ _ _ _ _ _ F4 F5) as F35. pose proof F6 as F6a.
+    rewrite <- (app_assoc (oJ ++ e3) e4 e5) in F6a. exact (frame_trans _ _ _ _ _ _ _ F35 F6a). }
+  assert (F46 : frame [] (fun _ : mtag => False) J4 ((oJ ++ e3) ++ e4) J6) by exact (frame_trans _ _ _ _ _ _ _ F5 F6).
+  destruct (jar_ok_frame _ _ _ ((e4 ++ e5) ++ e6) _ _ _ _ K3 F36 (fun x : False => x)) as [K3' R3'].
+  destruct (bx_ok_frame _ _ _ (e5 ++ e6) _ _ _ K4 F46 (fun x : False => x)) as (K4' & B4 & _).
+  destruct (bx_ok_frame _ _ _ e6 _ _ _ K5 F6 (fun x : False => x)) as (K5' & B5 & _).
+  rewrite <- !app_assoc in *.
+  split; [exact K3'|]. split; [repeat split; auto|]. split; [now rewrite R3'|].
+  unfold abs_ext at 1. cbn [e_dopt e_dumper e_tls]. rewrite R6, B5, R5, B14, B4, R4, B33. reflexivity.
+Qed.
